@@ -113,8 +113,8 @@ class Dag:
         return out
 
     def err(self, root):
-        """Status code of value root: 0, or the code of an errored leaf of its expression (the main stream uses one code
-        only, so 'which one' does not matter)"""
+        """Status code of value root: 0, or the smallest code of the errored leaves of its expression (with the pinned
+        first-wins rule the main stream uses one code only, so 'which one' does not matter)"""
         seen = {}
 
         def go(v):
@@ -127,9 +127,8 @@ class Dag:
                 r = 0
             else:
                 deps = [x[2], x[3]] if x[0] == "B" else list(x[2]) if x[0] == "O" else [x[2]]
-                r = 0
-                for a in deps:
-                    r = r or go(a)
+                cs = [c for c in (go(a) for a in deps) if c]
+                r = min(cs) if cs else 0
             seen[v] = r
             return r
         return go(root)
@@ -244,7 +243,7 @@ def gen_dag(rng):
         # because WHICH of two different codes is reported depends on the history on the pinned tree (known finding)
         for _ in range(rng.randint(1, 2)):
             if nleaf >= 3:
-                vals[rng.randrange(2, nleaf)] = ("E", 1, 1)
+                vals[rng.randrange(2, nleaf)] = ("E", 2, 10) if (TWO_CODES and rng.random() < 0.5) else ("E", 1, 1)
     used = set()
     nops = rng.randint(3, 13)
 
@@ -609,13 +608,20 @@ def run(cx):
     drv = vp.ocaml_build("c03_driver", mls + [os.path.join(vp.ROOT, "extract/c03_driver.ml")])
     exe = vp.build_harness("c03_csg", "seq", link_lib=True)
 
-    status_witness(cx, exe, drv, kmax or 1000)
+    rule = status_rule_from_source()
+    cx.obligation("translate:status forwarding rule", rule is not None,
+                  "neither the pinned 'first errored operand wins' code nor Impl::CombineStatus (smallest code wins) was recognised in "
+                  "boolean_result.cpp / csg_tree.cpp / impl.h: the Status model (CsgStatusDefs.v) no longer describes the code")
+    rule = rule or "first"
+    global TWO_CODES
+    TWO_CODES = (rule == "min")       # with an order-independent rule the exact code must be history independent: use both codes
+    status_witness(cx, exe, drv, kmax or 1000, rule)
     rng = random.Random(cx.seed * 104729 + 3)
     total = {"cases": 0, "forces": 0, "nontrivial": set(), "dist": {}, "mism": 0, "c02": 0, "alts": 0, "collapses": 0, "shared": 0}
     rounds = [cx.pick(500, 20000)]
     r_i = 0
     while r_i < len(rounds):
-        check_round(cx, rng, rounds[r_i], exe, drv, kmax or 1000, total)
+        check_round(cx, rng, rounds[r_i], exe, drv, kmax or 1000, total, rule)
         r_i += 1
         if r_i == 1 and cx.broken and not cx.violations:
             # the proof or the correspondence broke without a failing input: search with a larger budget
@@ -649,7 +655,7 @@ def replay(cx):
     print(out[-6000:])
     R, S, X, _ = parse_out(out)
     ml = [l + " # " + cached_sets(S, l.split()[1]) for l in lines if ".kernel" not in l.split()[1]]
-    rc, out2, err = vp.sh2([drv, str(kmax_from_source() or 1000)], input="\n".join(ml) + "\n", timeout=600)
+    rc, out2, err = vp.sh2([drv, str(kmax_from_source() or 1000), status_rule_from_source() or "first"], input="\n".join(ml) + "\n", timeout=600)
     print("--- model\n" + out2[-6000:])
     MR, MS, MX, ALT = parse_out(out2)
     for k in sorted(MR):
@@ -657,37 +663,74 @@ def replay(cx):
             cx.violation("replayed-case-differs", "implementation and model differ at %s op %d" % k, {"lines": lines})
 
 
-WITNESS = [
-    "CASE W.lazy 0 3 0 3 0 3 | E 1 1 | E 2 10 | L 6 7 9 134 135 137 | B 2 0 1 | B 2 3 2 | D 3 | F 4 0",
-    "CASE W.eager 0 3 0 3 0 3 | E 1 1 | E 2 10 | L 6 7 9 134 135 137 | B 2 0 1 | F 3 0 | B 2 3 2 | D 3 | F 4 0",
-]
+def status_rule_from_source():
+    """which error code a Boolean of two errored operands reports, read from the source:
+    'first' (pinned: inP's status, else inQ's; Compose: the first errored node) or 'min' (Impl::CombineStatus: the smallest
+    code), None when neither shape is recognised"""
+    br = open(os.path.join(vp.REPO, "src/boolean_result.cpp")).read()
+    ct = open(os.path.join(vp.REPO, "src/csg_tree.cpp")).read()
+    ih = open(os.path.join(vp.REPO, "src/impl.h")).read()
+    first_b = re.search(r"if \(inP_\.status_ != Manifold::Error::NoError\) \{\s*auto impl = Manifold::Impl\(\);\s*impl\.status_ = inP_\.status_;", br)
+    first_c = re.search(r"for \(auto& node : nodes\) \{\s*if \(node->pImpl_->status_ != Manifold::Error::NoError\) \{\s*Manifold::Impl impl;\s*impl\.status_ = node->pImpl_->status_;", ct)
+    if first_b and first_c and "CombineStatus" not in br and "CombineStatus" not in ct:
+        return "first"
+    min_h = re.search(r"static Error CombineStatus\(Error a, Error b\) \{\s*if \(a == Error::NoError\) return b;\s*if \(b == Error::NoError\) return a;\s*return a < b \? a : b;", ih)
+    if min_h and "CombineStatus(inP_.status_, inQ_.status_)" in br and "CombineStatus(status, node->pImpl_->status_)" in ct:
+        return "min"
+    return None
 
 
-def status_witness(cx, exe, drv, kmax):
-    """Properties_C03.status_code_refuted replayed on the real code: r = (e1 ^ e2) ^ c with two DIFFERENT error codes,
-    forced lazily (the temporary e1^e2 collapses into r, BatchBoolean reorders the operands) and eagerly."""
-    rc, out, err = vp.sh2([exe], input="\n".join(WITNESS) + "\n", timeout=300)
+def load_witnesses():
+    out = []
+    for l in open(os.path.join(vp.ROOT, "corpus/C03/status_witness.txt")):
+        l = l.strip()
+        if not l or l.startswith("#"):
+            continue
+        name, rest = l.split(" | ", 1)
+        lazy, eager = rest.split(" || ")
+        out.append((name.strip(), "CASE W.%s.lazy 0 3 0 3 0 3 | %s" % (name.strip(), lazy), "CASE W.%s.eager 0 3 0 3 0 3 | %s" % (name.strip(), eager)))
+    return out
+
+
+def status_witness(cx, exe, drv, kmax, rule):
+    """Properties_C03.status_code_refuted (and relatives, corpus/C03/status_witness.txt) replayed on the real code: an
+    expression with two DIFFERENT error codes forced lazily (temporaries collapse, BatchBoolean reorders) and eagerly."""
+    ws = load_witnesses()
+    lines = [x for w in ws for x in w[1:]]
+    rc, out, err = vp.sh2([exe], input="\n".join(lines) + "\n", timeout=300)
     R, S, X, _ = parse_out(out)
-    ml = [l + " # " + cached_sets(S, l.split()[1]) for l in WITNESS]
-    rc2, out2, err2 = vp.sh2([drv, str(kmax)], input="\n".join(ml) + "\n", timeout=300)
+    ml = [l + " # " + cached_sets(S, l.split()[1]) for l in lines]
+    rc2, out2, err2 = vp.sh2([drv, str(kmax), rule], input="\n".join(ml) + "\n", timeout=300)
     MR, MS, MX, _ = parse_out(out2)
-    impl = {k[0]: v.split()[0] for k, v in R.items() if (k[0], k[1]) in (("W.lazy", 6), ("W.eager", 7))}
-    model = {k[0]: v.split()[0] for k, v in MR.items() if (k[0], k[1]) in (("W.lazy", 6), ("W.eager", 7))}
-    cx.cov["status_witness"] = {"impl": impl, "model": model, "coq": "status_code_refuted: lazy 10, eager 1"}
-    if len(impl) != 2 or X:
-        cx.broke("corr:C03/status-witness", "the status witness did not run: %s %s" % (impl, list(X.values())[:1]))
-        return
-    if impl != model:
-        cx.broke("corr:C03/status-witness-model", "model and implementation report different Status codes on the witness: impl=%s model=%s" % (impl, model))
-    if impl["W.lazy"] != impl["W.eager"]:
-        cx.violation("status-code-depends-on-history",
-                     "r = (e1 ^ e2) ^ c with e1 = NaN-vertex mesh (Status 1), e2 = mesh with a wrong faceID length (Status 10): r.Status() is %s "
-                     "when r is forced lazily (the temporary e1^e2 collapses into r and BatchBoolean pops c, e2 first) and %s when e1^e2 is "
-                     "forced first; which error code is reported depends on the forcing history (error-ness does not)" % (impl["W.lazy"], impl["W.eager"]),
-                     {"lines": WITNESS, "impl": impl, "model": model})
+
+    def last(Rd, cid):
+        ks = sorted(k for k in Rd if k[0] == cid)
+        return Rd[ks[-1]].split()[0] if ks else None
+    rep = {}
+    for (name, ll, le) in ws:
+        il, ie = last(R, ll.split()[1]), last(R, le.split()[1])
+        ml_, me = last(MR, ll.split()[1]), last(MR, le.split()[1])
+        rep[name] = {"impl_lazy": il, "impl_eager": ie, "model_lazy": ml_, "model_eager": me}
+        if il is None or ie is None or X:
+            cx.broke("corr:C03/status-witness#%s" % name, "the status witness did not run: %s" % (list(X.values())[:1]))
+            continue
+        if (il, ie) != (ml_, me):
+            cx.broke("corr:C03/status-witness-model#%s" % name,
+                     "model (rule '%s') and implementation report different Status codes: impl=%s/%s model=%s/%s" % (rule, il, ie, ml_, me))
+        if il != ie:
+            cx.violation("status-code-depends-on-history:%s" % name,
+                         "an expression with two differently errored operands (Status 1 = NaN vertex, Status 10 = wrong faceID length): "
+                         "Status() is %s when the root is forced lazily (temporaries collapse into it, BatchBoolean/Compose reorder the "
+                         "operands) and %s when the intermediate is forced first; which error code is reported depends on the forcing "
+                         "history (error-ness does not)" % (il, ie), {"lines": [ll, le], "impl": [il, ie], "model": [ml_, me]})
+    cx.cov["status_witness"] = rep
+    cx.cov["status_rule_from_source"] = rule
 
 
-def check_round(cx, rng, ndags, exe, drv, kmax, total):
+TWO_CODES = False
+
+
+def check_round(cx, rng, ndags, exe, drv, kmax, total, rule="first"):
     cases, tries = build_cases(rng, ndags)
     lines = [c["line"] for c in cases]
     kl = lambda l: l.split()[1] if l.startswith("CASE") else None
@@ -700,7 +743,7 @@ def check_round(cx, rng, ndags, exe, drv, kmax, total):
     for c in cases:
         if c["variant"] != "kernel":
             mlines.append(c["line"] + " # " + cached_sets(S, c["id"]))
-    rc2, out_model, err2 = vp.sh2([drv, str(kmax)], input="\n".join(mlines) + "\n", timeout=1500)
+    rc2, out_model, err2 = vp.sh2([drv, str(kmax), rule], input="\n".join(mlines) + "\n", timeout=1500)
     if rc2 != 0:
         cx.broke("corr:C03/model-driver", "model driver exited %d: %s" % (rc2, err2[-400:]))
     MR, MS, MX, ALT = parse_out(out_model)
